@@ -88,6 +88,7 @@ def run(prog: Program, rep: Report, tier: str):
     from .leaves import rule_static_fields
     from .bij import bijection_classes as _bcs
     rule_static_fields(prog, rep, "C14.static-fields", _bcs(prog), minimum=8)
+    rule_sequence_copies(prog, rep)
     from .lints import rule_error_if_consumed
     rule_error_if_consumed(prog, rep, "C14.error-if", minimum=4)
     from .lints import rule_jit_captures
@@ -147,6 +148,24 @@ def rule_unwrap_keeps_static(prog, rep, R="C14.unwrap-static"):
         rep.undecided(R, "-", "unwrap:partition-into-jax", "no unwrap passes a partition through a jax operation any more")
 
 
+def rule_sequence_copies(prog, rep, R="C14.immutable"):
+    """A combinator that takes a sequence of members stores its own immutable copy (a tuple): otherwise the module aliases
+    the caller's list, and appending to that list later silently changes an existing model (its methods, its pytree
+    leaves, what is serialised) - repeated calls with the same arguments stop returning the same result."""
+    from ..terms import Interp, show
+    rep.rule(R, "Chain stores tuple(bijections), not the caller's sequence object", minimum=1)
+    c = prog.cls("flowjax.bijections.chain.Chain")
+    B = ("sym", "BIJECTIONS")
+    f = Interp(prog).eval_init(c, [B])
+    t = f.get("bijections")
+    ok = t is not None and ((t[0] == "call" and t[1] == ("ext", "builtins.tuple") and t[2] == (B,)) or t[0] == "tuple")
+    from .bij import method_site as _ms
+    rep.check(ok, R, _ms(prog, c, "__init__"), "Chain.__init__:bijections-copied",
+              "bijections = tuple(bijections)",
+              f"Chain stores {show(t, 120) if t else None}: the caller's sequence object itself - a list mutated after "
+              f"construction changes the model")
+
+
 def _callee_of(prog, m, node):
     f = node.func
     q = None
@@ -182,12 +201,42 @@ def rule_trace(prog, rep, fns):
             tp = None
             if c is None and qual in site_taint:
                 tp = {p for p, t in site_taint[qual].items() if t}
+            # a private method the unchanged tree did not have (a refactoring's helper) is analysed like a helper
+            # function: its parameters are traced iff a `self.<m>(...)` call site passes a traced value
+            is_new_private = c is not None and fn.name.startswith("_") and not fn.name.startswith("__") and \
+                prog.recorded_signatures and f"{c.qualname}.{fn.name}" not in prog.recorded_signatures
+            if is_new_private:
+                tp = {p for p, t in site_taint.get(qual, {}).items() if t}
             ft = FnTaint(prog, m, c, fn, tainted_params=tp)
             ft.propagate()
             results[(m.name, c.qualname if c else None, fn.name, fn.lineno)] = (m, c, fn, ft)
             for node in ast.walk(fn):
                 if isinstance(node, ast.Call):
                     r = _callee_of(prog, m, node)
+                    if not r and c is not None and isinstance(node.func, ast.Attribute) and isinstance(node.func.value, ast.Name) \
+                            and node.func.value.id == "self":
+                        rm = prog.find_method(c, node.func.attr)
+                        if rm is not None and node.func.attr.startswith("_") and prog.recorded_signatures and \
+                                f"{rm[0].qualname}.{node.func.attr}" not in prog.recorded_signatures:
+                            # call of a new private method: parameters after self
+                            cfn0 = rm[1]
+                            q0 = f"{rm[0].module.name}.{rm[0].name}.{node.func.attr}"
+                            names0 = [p.arg for p in (cfn0.args.posonlyargs + cfn0.args.args)[1:]]
+                            cur0 = site_taint.setdefault(q0, {})
+                            for i2, a in enumerate(node.args):
+                                if isinstance(a, ast.Starred) or i2 >= len(names0):
+                                    continue
+                                t = ft.is_tainted(a)
+                                if t and not cur0.get(names0[i2]):
+                                    changed = True
+                                cur0[names0[i2]] = cur0.get(names0[i2], False) or t
+                            for kw2 in node.keywords:
+                                if kw2.arg:
+                                    t = ft.is_tainted(kw2.value)
+                                    if t and not cur0.get(kw2.arg):
+                                        changed = True
+                                    cur0[kw2.arg] = cur0.get(kw2.arg, False) or t
+                        continue
                     if not r:
                         continue
                     q, cfn = r
